@@ -10,6 +10,44 @@ import h3
 from hivemon.monitors.base import Monitor
 
 
+class TariffModel:
+    """the tariff table of the input spec read as a calendar: which prices may be in force for (station, plug) in the step
+    that starts at t_k. Rows with time < t_k not consumed by an earlier step form the step's window; where several rows of
+    one window name the same plug of a station (nested regions) any of them is acceptable."""
+
+    def __init__(self, spec, sim):
+        self.prices = spec.get("prices")
+        self.rows = list(self.prices["rows"]) if self.prices else []
+        self.by = (self.prices or {}).get("by", "station")
+        self.geo = {sid: st.geoid for sid, st in sim.stations.items()}
+        self.plugs = {s["id"]: [p["charger"] for p in s["plugs"]] for s in spec["stations"]}
+        self.accepted: Dict[Tuple[str, str], Set[float]] = {(sid, c): {0.0} for sid, cs in self.plugs.items() for c in cs}
+        self.row_i = 0
+
+    def names(self, key: str, sid: str) -> bool:
+        if key == sid:
+            return True
+        if self.by == "station":
+            return False
+        try:
+            res = h3.h3_get_resolution(key)
+        except Exception:
+            return False
+        g = self.geo.get(sid)
+        return g is not None and res <= h3.h3_get_resolution(g) and h3.h3_to_parent(g, res) == key
+
+    def advance(self, tk: int):
+        per_key: Dict[str, Dict[str, float]] = {}
+        while self.row_i < len(self.rows) and self.rows[self.row_i][0] < tk:
+            t, key, c, p = self.rows[self.row_i]
+            per_key.setdefault(key, {})[c] = p
+            self.row_i += 1
+        for (sid, c) in self.accepted:
+            cands = {prices[c] for key, prices in per_key.items() if c in prices and self.names(key, sid)}
+            if cands:
+                self.accepted[(sid, c)] = cands
+
+
 class C11(Monitor):
     prop = "C11"
 
